@@ -69,6 +69,7 @@ def conv_case(draw):
 
 
 class Convert(Sub):
+    ambient = True
     name = "convert"
     n = {"quick": 10000, "thorough": 250000}
     shards = {"quick": 3, "thorough": 8}
@@ -146,6 +147,7 @@ def source_case(draw):
 
 
 class Sources(Sub):
+    ambient = True
     name = "sources"
     n = {"quick": 12000, "thorough": 300000}
     shards = {"quick": 3, "thorough": 8}
@@ -220,6 +222,7 @@ def ts_case(draw):
 
 
 class Timestamps(Sub):
+    ambient = True
     name = "timestamps"
     n = {"quick": 10000, "thorough": 250000}
     shards = {"quick": 3, "thorough": 8}
@@ -258,6 +261,7 @@ class Timestamps(Sub):
 
 
 class AllTransitions(Sub):
+    ambient = True
     """Exhaustive over the enumerated transitions (every zone) x probe offsets."""
     name = "all_transitions"
     kind = "enum"
@@ -300,6 +304,7 @@ class AllTransitions(Sub):
 
 
 class History(Sub):
+    ambient = True
     """RuleBasedStateMachine: one value kept alive through conversions, arithmetic, copies and global switches (DESIGN 4.21)"""
     name = "history_machine"
     kind = "machine"
